@@ -385,13 +385,23 @@ func TestReplay(t *testing.T) { ev.Replay(t, ev.Get(prop)) }
 
 func enumMasks(s Session, dir, off int) []string {
 	d := gen.NewDRBG(s.Seed, uint64(1000+dir)<<32|uint64(off))
-	rb := byte(d.Intn(255) + 1)
-	n := 2 + d.Intn(31)
-	burst := d.Bytes(n)
-	if burst[0] == 0 {
-		burst[0] = 0x5a
+	res := []string{"01", "02", "04", "08", "10", "20", "40", "80", "ff"}
+	for i := 0; i < 2; i++ {
+		// A random byte that is neither a single bit nor 0xff.
+		rb := byte(d.Intn(255) + 1)
+		for rb&(rb-1) == 0 || rb == 0xff {
+			rb = rb*5 + 3
+		}
+		res = append(res, hex.EncodeToString([]byte{rb}))
 	}
-	return []string{"01", "80", "ff", hex.EncodeToString([]byte{rb}), hex.EncodeToString(burst)}
+	for i := 0; i < 2; i++ {
+		burst := d.Bytes(2 + d.Intn(31))
+		if burst[0] == 0 {
+			burst[0] = 0x5a
+		}
+		res = append(res, hex.EncodeToString(burst))
+	}
+	return res
 }
 
 func caseHash(seed int64, i int) uint64 {
